@@ -13,6 +13,7 @@ package act
 //@ func supCheckRestartIntensity
 //@   props C09
 //@   mode int
+//@   modifies wallclock(), elems(restarts)
 //@   requires [sorted] sortedI64(restarts)
 //@   requires [past] forall i int :: 0 <= i && i < len(restarts) ==> 0 <= restarts[i] && restarts[i] <= wallclock()
 //@   requires [clock] wallclock() >= 0
@@ -250,6 +251,7 @@ package act
 //@ func (s *Supervisor) handleAction
 //@   props C10 C08
 //@   mode int
+//@   no_frame
 //@   no_safety
 //@   may_panic
 //@   at call Spawn assert [links_both_ways] options.LinkChild && options.LinkParent
